@@ -118,6 +118,8 @@ def run_rtc(prop, repo, tier):
     env["PYTHONDONTWRITEBYTECODE"] = "1"
     env["RTC_OUT"] = out
     env["RTC_ONLY"] = prop
+    scratch = tempfile.mkdtemp(prefix="rtc_tmp_")       # the suite leaves temporary directories behind
+    env["TMPDIR"] = scratch
     t0 = time.time()
     try:
         p = subprocess.run([PY_RT, "-m", "pytest", "-q", "-p", "no:cacheprovider", "-p", "rtc.plugin", "--timeout=900",
@@ -133,6 +135,8 @@ def run_rtc(prop, repo, tier):
             os.unlink(out)
         except OSError:
             pass
+        import shutil
+        shutil.rmtree(scratch, ignore_errors=True)
     rec["wall_s"] = round(time.time() - t0, 2)
     return rec
 
